@@ -390,7 +390,10 @@ def r6_lazy_derivations(ctx):
 # clauses shared with sibling properties: the written bytes of a selection / a modified table are cut with the same tables
 from .c16 import r4_selection_compaction as _bam_selection      # BAM: bytes of a selection are gathered record by record, in selection order
 from .c02 import r3_fixed_layouts as _line_layouts              # record and field extents of SAM / FASTQ / FASTA (trailing '\r', record ends)
-from .c02 import r6_field_table as _field_table                 # column accessors read the start/length table without changing it
+def _field_table(ctx):
+    from .c02 import r6_field_table             # the start / length / record tables modified writes cut text with (not the digit / padded matrices of the parsers)
+    with ctx.only("DelimitedBuffer.from_raw_buffer", "_get_n_fields", "_get_buffer_extractor", "TextBufferExtractor.get_field_by_number", "TextBufferExtractor.__init__"):
+        r6_field_table(ctx)
 from .c03 import r6_streams_and_text_ranges as _text_ranges     # untouched columns are supplied as file text
 
 from ..through_time import make_rule as _mk_tt
